@@ -10,7 +10,7 @@ PROPS = {
     "C01": dict(
         level="exploration",
         technique="model-based stateful property testing (rapid): generated concurrent ADD/DEL/sync/balancer/drift/fault histories against the real eni.Manager+Local over a cloud simulator, checked by an interval ledger of address holders",
-        rule="history = 1..8 (thorough 20) rounds of 1..6 concurrently started operations drawn by rapid over a drawn pool configuration; non-trivial = at least one successful allocation AND (a round with more concurrent allocs than idle addresses, or a drift/fault action, or a stale duplicate release); distinct = distinct scenario hash",
+        rule="history = 1..8 (thorough 20) rounds of 1..6 concurrently started operations drawn by rapid over a drawn pool configuration (IPv4 / dual stack, IPv6-only in 1/8 of the cases; optional slow metadata lookup and slow unassign calls); operations: ADD, cancelled ADD, DEL, balancer pass, periodic sync, remote removal, cloud fault plan, and 'late worker' (ADD #1 cancelled, the retry ADD #2 runs while the pool worker of ADD #1 is parked handing its answer over, then the worker notices the cancellation); non-trivial = at least one successful allocation AND (a round with more concurrent allocs than idle addresses, or a drift/fault action, or a stale duplicate release); distinct = distinct scenario hash",
         assumptions=_pool_assume,
         level_text="randomised exploration of concurrent histories with true goroutine concurrency; the ledger invariant (no overlapping holds, provenance, no barred address, repeated ADD returns the same address) is sound under any interleaving; not exhaustive",
         level_note="an overlap that begins and ends strictly inside terway between two harness observations cannot be seen; schedule-dependent failures may not shrink deterministically (history is in the replay trace)",
@@ -20,7 +20,7 @@ PROPS = {
     "C06": dict(
         level="exploration",
         technique="model-based stateful property testing (rapid) with call-time monitors inside the cloud simulator (quota, batch, in-use, primary, trunk/erdma protection)",
-        rule="same histories as C01 with more balancer/release steps; non-trivial = a monitor was evaluated with the interface at its per-interface limit or the node at its interface quota, or a dispose call arrived while at least one address on the node was held; distinct = distinct scenario hash",
+        rule="same histories as C01 with more balancer/release steps and WITHOUT cloud fault plans (outside C06's quantifier); environment events kept: remote removal of an address and a metadata answer that omits an address which is still assigned (the periodic sync then marks a held address invalid), slow unassign calls (addresses stay 'being removed' while still assigned); non-trivial = a monitor was evaluated with the interface at its per-interface limit or the node at its interface quota, or a dispose call arrived while at least one address on the node was held; distinct = distinct scenario hash",
         assumptions=_pool_assume,
         level_text="every factory call of every explored history is checked when it arrives against the live-allocation ledger and the configured limits; exploration, not exhaustive",
         level_note="pending-request check on interface deletion reads the Local's queues white-box under its lock",
